@@ -286,7 +286,7 @@
 		core::mem::forget(v);
 	}
 
-	/// @ob ip.octet_lengths @props C17,C10 @kind forall @tier quick @timeout 900 @features "x509-parser" @bound "every byte string of length 0..=17" @fns rcgen::ip_addr_from_octets
+	/// @ob ip.octet_lengths @props C06,C07,C10,C17 @kind forall @tier quick @timeout 900 @features "x509-parser" @bound "every byte string of length 0..=17" @fns rcgen::ip_addr_from_octets
 	#[cfg(feature = "x509-parser")]
 	#[kani::proof]
 	#[kani::unwind(20)]
